@@ -26,12 +26,12 @@ def units():
         U("header_read", "h_header_read", "header_read"),
         U("header_seek", "h_header_seek", "header_seek", props=["C03", "C14", "C15", "C19"],
           loops={"header_seek": [{"loop_id": 0, "assigns_locals": True,
-                                  "assigns": "psf->error, psf->pipeoffset, __CPROVER_object_whole (&gio)",
+                                  "assigns": "psf->error, psf->pipeoffset, psf->syserr, __CPROVER_object_whole (&gio)",
                                   "invariants": "skip <= __CPROVER_loop_entry (skip)",
                                   "decreases": "skip"}]}),
         U("header_gets", "h_header_gets", "header_gets",
           loops={"header_gets": [{"loop_id": 0, "assigns_locals": True,
-                                  "assigns": "psf->error, psf->pipeoffset, psf->header.indx, psf->header.end, __CPROVER_object_whole (&gio), "
+                                  "assigns": "psf->error, psf->pipeoffset, psf->syserr, psf->header.indx, psf->header.end, __CPROVER_object_whole (&gio), "
                                              "__CPROVER_object_whole (psf->header.ptr), __CPROVER_object_whole (ptr)",
                                   "invariants": "0 <= k && k <= bufsize - 1 && 0 <= psf->header.indx && psf->header.indx <= 102400 && psf->header.indx + (bufsize - 1 - k) < psf->header.len "
                                                 "&& 0 <= psf->header.end && psf->header.end <= psf->header.len",
